@@ -86,7 +86,9 @@ def plan(tier: str) -> list[dict]:
     jobs.append({'engine': 'twins:controlled', 'n': 100 if q else 2500, 'hashseed': 0})
     jobs.append({'engine': 'twins:serial', 'n': 40 if q else 1000, 'hashseed': 1})
     jobs.append({'engine': 'twins:fork', 'n': 10 if q else 300, 'hashseed': 2})
-    jobs.append({'engine': 'scale', 'n': 3 if q else 60, 'hashseed': 3})
+    jobs.append({'engine': 'scale:fork', 'n': 2 if q else 40, 'hashseed': 3})
+    jobs.append({'engine': 'scale:serial', 'n': 1 if q else 20, 'hashseed': 4})
+    jobs.append({'engine': 'scale:controlled', 'n': 2 if q else 40, 'hashseed': 5})
     return list(jobs) + dagprop.exhaustive_jobs(tier, 4)
 
 
@@ -102,11 +104,10 @@ def run_job(rec: core.Recorder, job: dict, seed: int) -> None:
                           specs.dag_spec(max_nodes=7, backends=(b,), dup_bias=(seed % 2 == 0), storages=('local', 'local', 'none')), st.booleans(), st.booleans())
         core.run_hypothesis(rec, eng, strat, check_two_runs, max_examples=job['n'], seed=seed, shrink=(b != 'fork' or rec.tier == 'thorough'))
         return
-    if eng == 'scale':
-        from hypothesis import strategies as st
-
+    if eng.startswith('scale:'):
         from pbt.props import c17
-        strat = st.builds(lambda sp, b: {**sp, 'lab': {**sp['lab'], 'backend': b}}, c17.scale_spec(), st.sampled_from(['fork', 'serial', 'controlled']))
+        b = eng.split(':')[1]
+        strat = c17.scale_spec().map(lambda sp: {**sp, 'lab': {**sp['lab'], 'backend': b}})
         core.run_hypothesis(rec, eng, strat, check, max_examples=job['n'], seed=seed, shrink=False)
         return
     if eng.startswith('twins:'):
